@@ -288,7 +288,30 @@ func xzWriteCase(r *core.Run, prop string, p XZWCase) {
 		}
 	}
 	r.Trace(1)
-	h := core.Hash(streamClass, len(sink) > 0, len(calls))
+	// non-trivial: distinct (result class, block count bucket, chunk-kind sequence prefix, call-history shape)
+	kindSeq := ""
+	nbl := 0
+	if x := ref.DecodeXZ(sink, ref.XZOptions{}); x.Err == nil && len(x.Streams) == 1 {
+		nbl = len(x.Streams[0].Blocks)
+		for _, b := range x.Streams[0].Blocks {
+			for _, ch := range b.Chunks {
+				if len(kindSeq) < 24 {
+					kindSeq += fmt.Sprint(int(ch.Kind))
+				}
+			}
+			kindSeq += "|"
+			if len(kindSeq) > 24 {
+				break
+			}
+		}
+	}
+	shape := ""
+	for _, c := range calls {
+		if len(shape) < 8 {
+			shape += c.Call[:1]
+		}
+	}
+	h := core.Hash(streamClass, minInt(nbl, 6), kindSeq, shape)
 	r.Eval(core.Hash(sink))
 	r.Nontrivial(h)
 }
